@@ -15,7 +15,7 @@ OUT = "/tmp/mut/out_%s" % pid
 diff = os.path.join(OUT, "mut%s.diff" % k)
 demo = os.path.join(OUT, "demo%s.rs" % k)
 meta = json.load(open(os.path.join(OUT, "meta%s.json" % k)))
-env = dict(os.environ, CARGO_NET_OFFLINE="true")
+env = dict(os.environ, CARGO_NET_OFFLINE="true", VERIF_EVIDENCE_DIR="/verif/work/mut_evidence")
 
 def sh(cmd, cwd=None, timeout=3000):
     p = subprocess.run(cmd, cwd=cwd, env=env, stdout=subprocess.PIPE, stderr=subprocess.STDOUT, timeout=timeout)
